@@ -31,6 +31,13 @@ def alphabet(m):
         ticks.add(j)
     evs += [('tick', j) for j in sorted(ticks)]
     evs += [('quotes', 1)]
+    # money credited to a portfolio directly with a LATER timestamp: the portfolio clock then runs ahead of
+    # the broker clock, and broker-level transfers / clock updates in between are refusals of the kind
+    # "timestamp earlier than the portfolio's clock"
+    if m.clock + 1 < len(bm.INSTANTS):
+        for p in m.pfs:
+            if m.pfs[p].clock <= m.clock:
+                evs.append(('pf_direct_sub', p, '10', m.clock + 1))
     return evs
 
 
